@@ -166,6 +166,11 @@ bool c20::run_part0(std::string const& op, Toks& in, Out& impl, Out& ref)
         op_frefptr(in.num(), impl);
         return true; // no std::function_ref in libstdc++ 12
     }
+    if (op == "frefwf") {
+        int q = i(), ac = i();
+        op_frefwf(q, ac, impl);
+        return true; // no std::function_ref in libstdc++ 12: reference = Coq spec leg (P0792)
+    }
     if (op == "frefops") {
         op_frefops(in.num(), impl);
         return true; // no std::function_ref in libstdc++ 12
@@ -395,6 +400,12 @@ bool c20::run_part4(std::string const& op, Toks& in, Out& impl, Out& ref)
         }
         return true;
     }
+    if (op == "tswapref") {
+        auto a = in.num(), b = in.num(), c = in.num(), d = in.num();
+        op_tswapref<EtlLib>(a, b, c, d, impl);
+        op_tswapref<StdLib>(a, b, c, d, ref);
+        return true;
+    }
     if (op == "tget" || op == "tapply") {
         auto l = in.list();
         if (l.size() >= static_cast<std::size_t>(MAXN)) { return false; }
@@ -438,10 +449,10 @@ bool c20::run_part5(std::string const& op, Toks& in, Out& impl, Out& ref)
         op_ipfsizes<StdFn>(ref);
         return true;
     }
-    if (op == "ipf") {
+    if (op == "ipf" || op == "ipfx") {
         Toks copy = in;
-        op_ipf<EtlFn>(in, impl);
-        op_ipf<StdFn>(copy, ref);
+        op_ipf<EtlFn>(in, impl, op == "ipfx");
+        op_ipf<StdFn>(copy, ref, op == "ipfx");
         return true;
     }
     return false;
